@@ -63,6 +63,13 @@ func RunSelftest(args []string) int {
 	}
 	fmt.Printf("panos selftest: ok=%d unsupported=%d bad=%d\n", ok2, uns2, len(bad2))
 	bad = append(bad, bad2...)
+	ok3, uns3, bad3 := SelftestNSX()
+	for _, b := range bad3 {
+		fmt.Println(b)
+		fmt.Println(strings.Repeat("-", 60))
+	}
+	fmt.Printf("nsx selftest: ok=%d unsupported=%d bad=%d\n", ok3, uns3, len(bad3))
+	bad = append(bad, bad3...)
 	_ = core.VerifDir
 	if len(bad) > 0 {
 		return 1
